@@ -112,7 +112,7 @@ def t1(ctx, res):
     res.floor("element_constructors", n, 9)
     res.floor("base_keywords", len(base_kw), 27)
     # the enumerations really are over Element.__init__
-    ser = ctx.func("_serialize_element")
+    ser = view(ctx.func("_serialize_element"), ctx.prog)
     found = any(isinstance(x, ast.Call) and dotted(x.func) == "inspect.signature" and x.args
                 and norm(x.args[0]) == "Element.__init__" for x in walk_own(ser.body))
     res.check(found, ser, "inspect.signature(Element.__init__)",
@@ -495,12 +495,13 @@ def t3(ctx, res):
     p = ctx.func("parse")
     root_ok = any(name_of(b["MV_s"]) == p.params[0].name for _, b in find("parse_element(MV_s, MV_st)", p))
     defs_ok = False
-    for node, b in find("parse_element(MV_d, MV_st)", p):
-        for x in walk_own(p.body):
-            if isinstance(x, ast.comprehension) and norm(x.target) == name_of(b["MV_d"]) \
-                    and has(f"{p.params[0].name}.get('definitions', MV__).values()", x.iter):
-                defs_ok = True
-    res.check(root_ok and defs_ok, p,
+    vp = view(p, ctx.prog).body
+    root_ok = root_ok or any(name_of(b["MV_s"]) == p.params[0].name for _, b in find("parse_element(MV_s, MV_st)", vp))
+    for bld in builders(vp):
+        if has(f"{p.params[0].name}.get('definitions', MV__).values()", bld.iter) \
+                and has(f"parse_element({norm(bld.target)}, MV_st)", bld.elt):
+            defs_ok = True
+    res.judge(True if (root_ok and defs_ok) else None, p,
               "parse_element(schema, state) / parse_element(definition, state)",
               reason="root and every definition are parsed through parse_element")
 
@@ -714,7 +715,8 @@ def t6(ctx, res):
     # _parse_object forwarded keys
     po = ctx.func("_parse_object")
     fwd = None
-    for n in walk_own(po.body):
+    vpo = view(po, ctx.prog).body
+    for n in walk_own(vpo):
         if isinstance(n, ast.For) and isinstance(n.iter, (ast.List, ast.Tuple)):
             got = str_elts(n.iter)
             if got is not None and any(name_of(b["MV_k"]) == norm(n.target) for _, b in find("MV_c[MV_k] = MV_s[MV_k]", n.body)):
@@ -723,7 +725,7 @@ def t6(ctx, res):
         raise AnalysisError("_parse_object: forwarded keyword list not found")
     new_kw = set(kwonly(ctx.func("ObjectMeta.__new__")))
     has_ap = any(isinstance(x, ast.keyword) and x.arg == "additionalProperties" and has("MV_s['additionalProperties']", x.value)
-                 for x in walk_own(po.body))
+                 for x in walk_own(vpo))
     got = set(fwd) | ({"additionalProperties"} if has_ap else set())
     res.check(got == new_kw - {"required"}, po, "forwarded class keywords", detail={"forwarded": sorted(got), "ObjectMeta.__new__": sorted(new_kw)},
               reason="every class keyword of ObjectMeta.__new__ except `required` (which flows through properties) is forwarded")
